@@ -21,7 +21,7 @@ ID = "C14"
 LEVEL = "model_checking"
 MIN_OUTCOMES = 3
 MANIFEST = {
-    'text': 'All consecutive day pairs 2001..2099 (36,158) for every coherent calendar block (padded, unpadded, glued, prefixed) are rendered through the real bump path and compared; bump-level pairs (old date, new date incl. earlier; quick: old dates of 2001-2029 plus 2038, 2050, 2068-2070, 2099 - thorough: 2001-2099) run through the `test` body; a VCS section in which config and newest tag straddle a 9->10 / 99->100 step of a calendar part and the bump date lies before the true current version; every rejected year/week pairing is shown refused by test and config loader and non-monotone on a witness pair. Exhaustive over the stated date range - transitivity of the order extends consecutive pairs to all pairs.',
+    'text': 'All consecutive day pairs 2001..2099 (36,158) for every coherent calendar block (padded, unpadded, glued, prefixed) are rendered through the real bump path and compared; bump-level pairs (old date, new date incl. earlier; quick: old dates of 2001-2029 plus 2038, 2050, 2068-2070, 2099 - thorough: 2001-2099) run through the `test` body; a VCS section in which config and newest tag straddle a 9->10 / 99->100 step of a calendar part and the bump date lies before the true current version; a day-by-day sweep of the {pep440_version} text for version patterns whose calendar parts are joined by - or _; every rejected year/week pairing is shown refused by test and config loader and non-monotone on a witness pair. Exhaustive over the stated date range - transitivity of the order extends consecutive pairs to all pairs.',
     'note': 'two-digit years wrap after 2099 by design; platform strftime (glibc) supplies week numbers',
     'technique': 'explicit-state exploration: exhaustive enumeration of the date-successor relation on the real bump path, invariant per edge',
 }
@@ -83,6 +83,8 @@ def explore(tier, seed):
         chunks.append(("bump", "MAJOR." + b, tier))
     chunks.append(("rejected", None, None))
     chunks.append(("tags", None, None))
+    for pattern in PEP_SWEEP:
+        chunks.append(("pep", pattern, tier))
     return pool.run_chunks(run_chunk, chunks)
 
 
@@ -96,9 +98,51 @@ def run_chunk(chunk):
         bump_level(st, pattern, arg)
     elif kind == "tags":
         behind_a_tag(st)
+    elif kind == "pep":
+        pep_sweep(st, pattern, arg)
     else:
         rejected(st)
     return st
+
+
+# version patterns whose calendar parts are joined by separators PEP 440 does not have: the text written for {pep440_version} is derived
+# by dropping them - it must still never run backwards as the date advances (padded parts only: unpadded parts glued together are not a
+# coherent pattern in any spelling)
+PEP_SWEEP = ["YYYY-0M-0D.BUILD", "vYYYY_0M.BUILD", "YYYY-00J.BUILD", "YY-0M-0D.PATCH", "YYYY_0W.PATCH", "GGGG-0V.PATCH", "YYYY-0M.0D.BUILD",
+             "YYYY.0M.0D.BUILD", "vYYYY0M.BUILD"]
+
+
+def pep_sweep(st, pattern, tier):
+    import bumpver.v2patterns as v2patterns
+    import packaging.version as pv
+
+    derived = v2patterns.normalize_pattern(pattern, "{pep440_version}")
+    base = v2version.parse_version_info("1", "MAJOR")
+    first, last = (FIRST, LAST) if tier == "thorough" else (dt.date(2001, 1, 1), dt.date(2030, 12, 31))
+    day, prev, prev_v = first, None, None
+    while day <= last:
+        info = base._replace(**v2version.cal_info(day)._asdict())._replace(bid="1001", patch=1)
+        text = v2version.format_version(info, derived)
+        st.evaluations += 1
+        st.transitions += 1
+        try:
+            cur_v = pv.Version(text)
+        except pv.InvalidVersion:
+            st.outcomes["violation"] += 1
+            st.violation(f"C14:pep440-text-of-a-calendar-version-is-not-pep440:{pattern}", {"pattern": pattern, "pep_sweep": True, "date": day.isoformat()}, {"text": text})
+            return
+        if prev_v is not None and cur_v < prev_v:
+            st.outcomes["violation"] += 1
+            st.violation(f"C14:pep440-text-runs-backwards:{pattern}", {"pattern": pattern, "pep_sweep": True, "dates": [(day - dt.timedelta(days=1)).isoformat(), day.isoformat()]},
+                         {"texts": [prev, text], "derived_pattern": derived})
+            return
+        st.validated += 1
+        prev, prev_v = text, cur_v
+        day += dt.timedelta(days=1)
+    st.state("pep", pattern, derived)
+    st.nontriv("pep", pattern)
+    st.observe((pattern, derived, prev))
+    st.outcomes["pep440-text-monotone"] += 1
 
 
 # (pattern, earlier date, later date): the two renderings straddle a 9 -> 10 or 99 -> 100 step of a calendar part
@@ -310,7 +354,9 @@ def rejected(st):
 
 def replay(case, st):
     world.set_today(dt.date(2033, 3, 3))
-    if case.get("tags_case"):
+    if case.get("pep_sweep"):
+        pep_sweep(st, case["pattern"], "thorough")
+    elif case.get("tags_case"):
         behind_a_tag(st)
     elif "dates" in case:
         sweep(st, case["pattern"], [tuple(case["dates"])])
